@@ -285,7 +285,7 @@ public:
         // TrimToSize just cut and re-inserts its chunks into TxGraph's chunk index, which lifts DynamicMemoryUsage() by up to a few
         // hundred bytes, also above the maximum: that is counted by a probe and reported, it is not an acceptance. So the usage is
         // taken inside the TransactionAddedToMempool notification for ProcessTransaction, and from the harness's read right after the
-        // call for ProcessNewPackage (which does not call check()).
+        // call (its first access to the pool) for ProcessNewPackage, which does not call check().
         std::optional<uint64_t> usage;
         if (r.is_package) usage = r.usage_after;
         else if (usage_at_added) usage = *usage_at_added;
@@ -294,7 +294,7 @@ public:
             if ((int64_t)*usage > max_bytes)
                 ctx.failf("mempool-usage-above-max", "when the acceptance completed DynamicMemoryUsage() = %lu > max_size_bytes = %ld (%zu entries, %s)", (unsigned long)*usage, (long)max_bytes, r.after.size(), r.is_package ? "package" : "single");
         }
-        if ((int64_t)r.usage_after > max_bytes) ctx.probe("usage_above_max_after_relinearizing_query");
+        if (!r.is_package && (int64_t)r.usage_after > max_bytes) ctx.probe("usage_above_max_after_relinearizing_query"); // after check() inside ProcessTransaction
         if ((int64_t)r.usage_after * 2 > max_bytes) ctx.probe("usage_above_half_max");
 
         // ---- clause: every cluster within the count and size limits (connected components, computed naively)
@@ -803,8 +803,8 @@ Engine MakeEngine()
     e.run = Run;
     e.describe = Describe;
     e.chunk = 1;
-    e.quick_runs = 220;
-    e.thorough_runs = 4000;
+    e.quick_runs = 600;
+    e.thorough_runs = 10000;
     e.quick_budget_s = 50;
     e.thorough_budget_s = 900;
     e.rule = "seeded mempool histories on a real regtest node (base chain 105-125 blocks; 40-220 generator operations with bias c27: transactions of 11 shapes incl. chains, fan-in/out, replacements, TRUC and dusty ones, "
@@ -814,7 +814,7 @@ Engine MakeEngine()
              "unconfirmed parent, >1000 vB child, package child with mempool+package parent, package with two v3 parents, v3 child of non-v3 parent) and ephemeral-dust families in 11 modes (dust value 0 / threshold-1 / threshold / "
              "random over five script kinds; package with sweeping child, child not sweeping, dusty parent prioritised by +1000/+1/-1/+50000 sat, +x then -x, second child, replacement of the sweeping child by a sweeping / "
              "non-sweeping one, dusty tx with fee alone, two dust outputs, child with own dust). Per-run knobs: max mempool size 45-240 kB in 2/3 of the runs (cluster size limit 1-3 kvB) else 300 MB (cluster size 2-101 kvB), "
-             "cluster count limit 2-10 (1/2), 11-25 (1/4) or 64, expiry 1-336 h. Oracle after every ProcessTransaction/ProcessNewPackage call that added an entry (from snapshots around the call): DynamicMemoryUsage <= "
+             "cluster count limit 2-10 (1/2), 11-25 (1/4) or 64, expiry 1-336 h. Oracle after every ProcessTransaction/ProcessNewPackage call that added an entry (from snapshots around the call): DynamicMemoryUsage at the instant the acceptance completed <= "
              "max_size_bytes; every connected component of the mempool has <= cluster_count entries and weight <= 4 x cluster_size_vbytes; version-3 entries (standardness on, no disconnect so far) have <= 1 unconfirmed parent and "
              "<= 1 unconfirmed child, never both, only v3<->v3 edges, vsize <= 10000 and <= 1000 with an unconfirmed parent; entries added by the call with an output below the own dust threshold have exactly one such output and zero "
              "base and modified fee; entries added by the call spend every dust output of their unconfirmed parents. After every call in which the node reported SIZELIMIT removals: GetMinFee() is strictly above the aggregate "
@@ -824,7 +824,9 @@ Engine MakeEngine()
                          "SingleTRUCChecks / PackageTRUCChecks", "PreCheckEphemeralTx / CheckEphemeralSpends / IsStandardTx dust rule", "ChainstateManager, script interpreter and caches", "ValidationSignals (TransactionRemovedFromMempool reasons)"};
     e.stub_components = {"peers (transactions handed to ProcessTransaction / ProcessNewPackage)", "wall clock (SetMockTime)", "ValidationSignals task runner (immediate)"};
     e.assumptions = {"RefChain model UTXO(tip) is correct (see C08); it is only used for the fee of a transaction that was added and evicted within one call",
-                     "the set evicted for size in a call is the set the node announces with reason SIZELIMIT", "sigop-adjusted size of generator-made transactions equals their BIP141 virtual size",
+                     "the set evicted for size in a call is the set the node announces with reason SIZELIMIT",
+                     "memory usage is read at the instant the acceptance completes (inside the TransactionAddedToMempool notification for ProcessTransaction, first read after the call for ProcessNewPackage); "
+                     "later lazy relinearization (CTxMemPool::check, GetFeerateDiagram, block building) may lift DynamicMemoryUsage() a few hundred bytes above the maximum and is only counted (probe usage_above_max_after_relinearizing_query)", "sigop-adjusted size of generator-made transactions equals their BIP141 virtual size",
                      "standardness is always enforced (the mempool module builds the node with require_standard=true); histories with a block disconnection skip the TRUC clause as the statement says"};
     e.expected_probes = {"acceptance_checked", "size_eviction", "size_eviction_multi_tx", "size_eviction_of_new_tx", "minfee_checked", "mempool_full_rejected", "mempool_min_fee_rejected", "usage_checked", "usage_above_half_max", "too_large_cluster_rejected",
                          "cluster_at_count_limit", "cluster_above_80pct_of_size_limit", "cluster_merge_accepted", "truc_pair_in_mempool", "truc_violation_rejected", "truc_sibling_evicted", "truc_child_replaced_by_conflicting_sibling",
